@@ -791,6 +791,40 @@ func sortedKeys(m map[string]any) []string {
 	return keys
 }
 
+// c13Mark adds a distinct marker key to every map below v.
+func c13Mark(v any, seen map[string]int) {
+	switch x := v.(type) {
+	case []any:
+		for _, e := range x {
+			c13Mark(e, seen)
+		}
+	case map[string]any:
+		for _, k := range sortedKeys(x) {
+			c13Mark(x[k], seen)
+		}
+		k := fmt.Sprintf("zz_keep_%d", len(seen))
+		seen[k] = 1000 + len(seen)
+		x[k] = seen[k]
+	}
+}
+
+// c13Marks collects the marker keys below v.
+func c13Marks(v any, got map[string]int) {
+	switch x := v.(type) {
+	case []any:
+		for _, e := range x {
+			c13Marks(e, got)
+		}
+	case map[string]any:
+		for k, e := range x {
+			if n, isInt := e.(int); isInt && strings.HasPrefix(k, "zz_keep_") {
+				got[k] += n
+			}
+			c13Marks(e, got)
+		}
+	}
+}
+
 // ---- The sections each step looks at (for the branch classes).
 
 type c13Sect struct {
@@ -954,6 +988,31 @@ func TestVerifC13(t *testing.T) {
 		h.mem(b, step-1, step, fmt.Sprintf("golden input v%d, one step in memory", step), nil)
 	}
 
+	// nested frame: a marker key in every map of every golden input survives
+	// (wherever its map is moved to) with its value
+	for step := uint(1); step <= h.last; step++ {
+		m, err := c13Parse(c13GoldenInput(t, step))
+		if err != nil {
+			t.Fatal(err)
+		}
+		delete(m, "auth_pass")
+		want := map[string]int{}
+		c13Mark(m, want)
+		body := c13Marshal(m)
+		top, _ := c13Parse(body)
+		r := h.mig(body, top, h.last, fmt.Sprintf("golden input v%d with a marker key in every map", step), []string{"nested-frame"})
+		if r.cls != 2 {
+			continue
+		}
+		got := map[string]int{}
+		c13Marks(r.tree, got)
+		if !reflect.DeepEqual(want, got) {
+			h.emit(vfApp("C13.CParseErr", "0%Z"), true, nil, false,
+				fmt.Sprintf("marker keys placed in the maps of the document were lost or changed: %d in, %d out", len(want), len(got)),
+				"nested-frame", map[string]any{"what": fmt.Sprintf("golden v%d", step), "body": string(body)})
+		}
+	}
+
 	// each step with its sections present / absent / null / ill-typed
 	for _, s := range c13Sections {
 		base, err := c13Parse(c13GoldenInput(t, s.step))
@@ -995,7 +1054,7 @@ func TestVerifC13(t *testing.T) {
 	}
 
 	// ---- random mutations of the golden inputs
-	n := out.Scale(700, 9000)
+	n := out.Scale(700, 6000)
 	for i := 0; i < n; i++ {
 		r := h.rnd.Fork(uint64(i))
 		step := uint(1 + r.Intn(int(h.last)))
